@@ -143,7 +143,17 @@ def run(F, rep):
                 if saved is not None:
                     restores = [x for x in f.walk() if x.get('k') == 'Call' and x.get('callee') == n['callee'] and x is not n and any(y.get('k') == 'Ref' and y.get('d') == saved['d'] for y in walk(x))]
                 ok = bool(restores) and must_pass(f.cfg_for(n), n, [x['i'] for x in restores])
-                rep.check(ok, 'C12.G1', '%s|%s(%s)' % (f.short, n['callee'], render(n['c'][0]) if n.get('c') else ''), f.where(n),
+                # the site is named after the function that owns the work: a helper that was split off from ONE function (its only caller, same file) is
+                # still that function's code - otherwise tidying a long function would turn a listed finding into a "new" one
+                owner = f
+                for _ in range(3):
+                    cs_ = {g_.key: g_ for g_ in F.funcs.values() if any(c_.get('k') == 'Call' and owner.key in F.callee_keys(c_) for c_ in g_.walk())}
+                    cs_.pop(owner.key, None)
+                    if len(cs_) == 1 and next(iter(cs_.values())).file == owner.file:
+                        owner = next(iter(cs_.values()))
+                    else:
+                        break
+                rep.check(ok, 'C12.G1', '%s|%s(%s)' % (owner.short, n['callee'], render(n['c'][0]) if n.get('c') else ''), f.where(n),
                           '%s changes the process-wide libxml2 default `%s` and does not restore the previous value: later parses in the same process keep or drop whitespace-only text nodes depending on which libCellML call ran before' % (f.short, n['callee']),
                           'previous value restored on every exit')
     # error handlers: install ... uninstall, also when the two halves live in file-local helpers
